@@ -724,8 +724,8 @@ Proof.
     all: repeat match goal with |- context [match ?x with _ => _ end] => destruct x end; cbn [fst]; auto.
   - destruct (fx_not_impl fx); reflexivity.
   - (* bind *) destruct (alookup _ _ _); [|reflexivity]. destruct (seqb ex ""); [reflexivity|].
-    destruct (queue_found s q); [|reflexivity]. destruct (locked _ _); [reflexivity|]. destruct (bad_xmatch _); reflexivity.
-  - destruct (alookup _ _ _); [|reflexivity]. destruct (queue_found s q); [|reflexivity]. destruct (locked _ _); [reflexivity|]. destruct (bad_xmatch _); reflexivity.
+    destruct (queue_found s q); [|reflexivity]. destruct (locked _ _); [reflexivity|]. destruct (bad_xmatch _); [reflexivity|]. destruct (extype_eqb _ ExTopic && bad_pattern _)%bool; reflexivity.
+  - destruct (alookup _ _ _); [|reflexivity]. destruct (queue_found s q); [|reflexivity]. destruct (locked _ _); [reflexivity|]. destruct (bad_xmatch _); [reflexivity|]. destruct (extype_eqb _ ExTopic && bad_pattern _)%bool; reflexivity.
   - (* qos *) cbn [fst]. rewrite view_wake_consumers. destruct (cfg_rabbit cfg); [destruct glob; (eapply view_set_chan_same; [eauto|cpr])|].
     destruct glob; [|eapply view_set_chan_same; [eauto|cpr]]. destruct (get_conn s c) eqn:Ec; auto. apply view_set_conn_qos; auto.
   - (* publish *) destruct imm; [reflexivity|]. destruct (alookup _ _ _); [|reflexivity].
